@@ -29,7 +29,8 @@ Decode(b, res) ==
            cursor |-> cursor, tail |-> IF cursor < b.len /\ ~RangeIs(r, cursor, b.len, 0) THEN "data" ELSE "zero"]
 
 AttOf(a) == [variant |-> a.variant, cap |-> a.cap, reserved |-> a.reserved, kind |-> KindByte(a.kind), magic |-> a.magic,
-             create |-> a.create, create_new |-> a.create_new]
+             create |-> a.create, create_new |-> a.create_new,
+             truncate |-> IF "truncate" \in DOMAIN a THEN a.truncate ELSE FALSE, append |-> IF "append" \in DOMAIN a THEN a.append ELSE FALSE]
 
 Step ==
   LET e == Rec[l] IN
@@ -47,7 +48,7 @@ Step ==
            \* the arena mapped at a file offset (Options::with_offset): the foreign bytes in front of it are part of the
            \* file a refused or read-only open must leave alone -- and no open has any business there
            /\ Viol("C09", "BytesBeforeOffsetUntouched",
-                   (e.before.exists /\ e.after.exists /\ e.before.pre_len = e.att.offset)
+                   (e.before.exists /\ e.after.exists /\ e.before.pre_len = e.att.offset /\ ~AskedToTruncate(att))
                       => (e.after.pre_len = e.before.pre_len /\ e.after.pre_ok))
            /\ ((model.res # real.res \/ model.tailZeroed # real.tailZeroed \/ (f.exists /\ model.len # real.len))
                  => PrintT(<<"DRIFT", l, 0, "open-outcome">>) /\ PrintT(<<"DRIFT-DETAIL", l, ToJson([model |-> model, real |-> real, file |-> f])>>))
